@@ -223,6 +223,18 @@ def handle (j : Json) : Except String Json := do
     | f + 1 => match roles[ri]? with
       | none => false
       | some r => accepted.getD ri false && (match r.parent with | none => true | some p => listedBy f p)
+  -- the edits of the top-level targets (phase B only): 0 = replace by the alternative content, 1 = remove, 2 = add the original
+  let edits : List (Nat × Nat) := match optField input "edits" with
+    | some (.arr a) => a.toList.filterMap fun e => match e with
+      | .arr p => (match p[0]!.getNat?.toOption, p[1]!.getNat?.toOption with | some k, some t => some (k, t) | _, _ => none)
+      | _ => none
+    | _ => []
+  let applied := if createRes == "ok" && !flat then edits else []
+  -- (name, uses the alternative content)
+  let topState : List (Nat × Bool) := applied.foldl (fun st (e : Nat × Nat) =>
+    let rest := st.filter (fun x => x.1 != e.2)
+    if e.1 == 0 then rest ++ [(e.2, true)] else if e.1 == 1 then rest else rest ++ [(e.2, false)]) (top.map fun t => (t, false))
+  let top := topState.map (·.1)
   let listed : List Nat := (List.range nnames).filter fun t =>
     top.contains t || (List.range roles.length).any fun ri => (roles[ri]?.map (·.targets.contains t)).getD false && listedBy 8 ri
   let model := Json.mkObj [("steps", Json.arr steps), ("final", finalOk),
@@ -248,8 +260,13 @@ def handle (j : Json) : Except String Json := do
     let d := downloads.getD t ""
     if listed.contains t then (d == "identical" || needsEscape.getD t false) else d == "unlisted"
   -- the loaded tree, node by node, against what was put in
-  let lengths := natsOf input "lengths"
-  let digests := match optField input "digests" with | some (.arr a) => a.toList.map fun x => (match x with | Json.str s => s | _ => "") | _ => []
+  let lengths0 := natsOf input "lengths"
+  let digests0 := match optField input "digests" with | some (.arr a) => a.toList.map fun x => (match x with | Json.str s => s | _ => "") | _ => []
+  let altLengths := natsOf input "alt_lengths"
+  let altDigests := match optField input "alt_digests" with | some (.arr a) => a.toList.map fun x => (match x with | Json.str s => s | _ => "") | _ => []
+  let isAlt (t : Nat) : Bool := topState.contains (t, true)
+  let lengths := (List.range lengths0.length).map fun t => if isAlt t then altLengths.getD t 0 else lengths0.getD t 0
+  let digests := (List.range digests0.length).map fun t => if isAlt t then altDigests.getD t "" else digests0.getD t ""
   let keyHex : List (Nat × String) := match optField input "key_ids" with
     | some (.arr a) => a.toList.filterMap fun p => match p with
       | .arr q => (match q[0]!.getNat?.toOption, q[1]! with | some i, Json.str h => some (i, h) | _, _ => none)
@@ -268,7 +285,9 @@ def handle (j : Json) : Except String Json := do
   let agree := stepsAgree && ifinal == finalOk && (!finalOk || (treeOk && writtenNames)) &&
     (if finalOk then iload == "ok" && ivers == natArr [1, tsVersion, snapVersion, topVersion] && iaccepted == accepted && irolev == curVersion && downloadsOk else true)
   -- the property: whatever the editor signed and wrote loads, describes the written files, and every listed target downloads
-  let spec := if ifinal then iload == "ok" && describes && (writtenDesc || !finalOk) && (List.range nnames).all fun t =>
+  -- (what the client sees is what the program put in: the targets of every role with length and digest, the
+  -- delegation tree with key ids, thresholds and versions — `treeOf` is the program read as plain assignments)
+  let spec := if ifinal then iload == "ok" && describes && (writtenDesc || !finalOk) && (treeOk || !finalOk) && (List.range nnames).all fun t =>
       let d := downloads.getD t ""
       d == "unlisted" || d == "identical" || needsEscape.getD t false
     else true
